@@ -12,7 +12,7 @@
 From Coq Require Import NArith List String Bool Lia.
 From Coq Require Import Strings.Byte.
 From PDL Require Import Base.Bits Base.Outcome Lang.Ast Lang.Sexp Analyzer.Schema Sem.RefEncode Rust.Encode
-     Proofs.DecodeSafe Proofs.BitfieldEncode Proofs.EncodeSafe.
+     Proofs.DecodeSafe Proofs.BitfieldEncode Proofs.EncodeSafe Proofs.SchemaEnums Proofs.EncodedLen.
 Import ListNotations.
 Open Scope N_scope.
 
@@ -61,3 +61,50 @@ Theorem C05_bitfield_declarations_do_not_truncate :
     good (rust_encode (S fuel) fl sch id v) bs.
 Proof. exact rust_encode_fragment. Qed.
 Print Assumptions C05_bitfield_declarations_do_not_truncate.
+
+(** LENGTH AS PROMISED (Proofs/EncodedLen.v): "whenever encode succeeds, the number of bytes
+    written equals encoded_len()".  Field level, for EVERY field kind the encoder handles
+    (all bit-field kinds incl. flags, size / count / element-size fields; optional scalar,
+    enum and struct fields; payload / body; padding; typedef fields; scalar, enum and struct
+    arrays, padded or not), any pending bit-fields and shift: the bytes [enc_fields] writes
+    are as many as [len_fields] computes.  [Hrec] / [Hstatic] are the induction hypotheses
+    for nested struct types, [Hpay] says the payload action writes payload_size octets. *)
+Theorem C05_fields_write_what_encoded_len_computes :
+  forall (fl : file) (sch : schema) (rec_enc : string -> value -> eres (list byte))
+         (rec_len : string -> value -> option N) (d : decl) (all_fields : list field)
+         (cs : list constr) (obj : list (string * value)) (payload_act : eres (list byte))
+         (payload_size : N) (T : string -> Prop),
+    schema_knows_enums fl sch ->
+    schema_knows_customs fl sch ->
+    (forall tid v bs, T tid -> rec_enc tid v = Ok bs -> rec_len tid v = Some (len bs)) ->
+    (forall tid v bs w, T tid -> rec_enc tid v = Ok bs -> type_static_bits sch tid = Some w -> len bs = w / 8) ->
+    (forall pl, payload_act = Ok pl -> len pl = payload_size) ->
+    forall (fs : list field) (p : pending) (shift : N) (bs : list byte),
+      cls fl T fs ->
+      enc_fields fl sch rec_enc rec_len d all_fields cs obj payload_act payload_size fs p shift = Ok bs ->
+      len_fields fl sch rec_len d obj payload_size fs shift = Some (len bs).
+Proof. exact enc_fields_len. Qed.
+Print Assumptions C05_fields_write_what_encoded_len_computes.
+
+(** Whole declarations WITH THEIR PARENTS, real schema, nothing assumed about emitted code:
+    every declaration whose inheritance chain reaches no struct / unsized custom type. *)
+Theorem C05_encoded_len_is_the_number_of_bytes_written :
+  forall (fuel : nat) (fl : file) (sch : schema) (id : string) (d : decl) (v : value) (bs : list byte),
+    enum_widths_fit fl = true -> custom_widths_fit fl = true -> mk_schema fl = Some sch ->
+    lookup_decl fl id = Some d ->
+    chain_rec_free fuel fl d = true ->
+    rust_encode fuel fl sch id v = Ok bs ->
+    rust_encoded_len fuel fl sch id v = Some (len bs).
+Proof. exact rust_encode_len_real_schema. Qed.
+Print Assumptions C05_encoded_len_is_the_number_of_bytes_written.
+
+(** ... and EVERY declaration (nested, array and optional structs, parents) of a file in
+    which no struct or packet has a static size. *)
+Theorem C05_encoded_len_is_the_number_of_bytes_written_dynamic_structs :
+  forall (fuel : nat) (fl : file) (sch : schema) (id : string) (v : value) (bs : list byte),
+    enum_widths_fit fl = true -> custom_widths_fit fl = true -> mk_schema fl = Some sch ->
+    file_arrs_wf fl = true -> no_static_structs fl sch = true ->
+    rust_encode fuel fl sch id v = Ok bs ->
+    rust_encoded_len fuel fl sch id v = Some (len bs).
+Proof. exact rust_encode_len_dynamic_structs. Qed.
+Print Assumptions C05_encoded_len_is_the_number_of_bytes_written_dynamic_structs.
